@@ -322,6 +322,20 @@ def evaluate(case) -> list:
     except sqlite3.Error as e:
         return [(f"{op}:sqlite-rejects-output", f"{sql!r} -> {after!r}: {e}")]
     info["rows"], info["outcomes"], info["relaxed"] = n_rows, n_out, relaxed_hit
+    if not mism:
+        # the text sqlglot emits for the result must mean the same as the tree: re-read the generated text with sqlglot's
+        # own base grammar and evaluate that (catches a lost parenthesis, e.g. NOT x >= 1 AND x <= 3 for NOT BETWEEN)
+        try:
+            reread = _explicit_sql(sqlglot.parse_one(out_expr.sql()))
+        except Exception as e:
+            return [(f"{op}:{mode}:output-text-unparseable", f"{sql!r} -> {out_expr.sql()!r}: {type(e).__name__}: {e}")]
+        if reread != after:
+            try:
+                _, _, mism_t, _ = _compare(lite, reread, cols, nn, relax, where=(mode == "where"))
+            except sqlite3.Error as e:
+                mism_t = []
+            if mism_t:
+                fails.append((f"{op}:{mode}:generated-text-regroups", f"{sql!r} -> text {out_expr.sql()!r} reads back as {reread!r}; rows {mism_t}"))
     if mism:
         rule = None
         # attribute to the first single rule whose own before/after differ on some row
@@ -381,7 +395,10 @@ def _between_free_sql(e):
 def cases(draw, max_depth: int):
     shape = draw(st.integers(0, 9))
     depth = draw(st.integers(1, max_depth))
-    if shape < 6:
+    if shape < 2:
+        e = draw(G.cmp_cluster())
+        kind = "bool"
+    elif shape < 6:
         e = draw(G.pooled_bool_expr(depth))
         kind = "bool"
     elif shape < 9:
